@@ -22,6 +22,14 @@ def run(rep, tier):
         aff.r_fsal(rep, ctx, m)
     rep.rule("R-RADAU-CONST", "the constants RADAU::solve applies satisfy the Radau IIA(5) identities (nodes = roots of 10c^2-8c+1 and 1, TI*T = I, T*Lambda*TI = A^-1, estimator weights) to 1e-13 in 60-digit arithmetic")
     radau.r_radau_const(rep, f)
+    rep.rule("R-BDF-PREDICT", "BDF: the predictor sum_{j<=k} D_j equals p(x + h) for every polynomial p of degree <= k through the stored points")
+    rep.rule("R-BDF-CORRECT", "BDF: the Newton residual c*f - psi - delta vanishes at a polynomial solution of degree <= k (the corrector formula has order k), the accumulated correction enters with coefficient -1 and the Newton increment moves iterate and correction alike")
+    rep.rule("R-BDF-UPDATE", "BDF: after an accepted step the difference table holds nabla^j y_(n+1), j = 0..k+2, identically in the past values")
+    rep.rule("R-BDF-COEFF", "BDF: gamma_k is the k-th harmonic number and alpha_k + error_const_k = gamma_k + 1/(k+1) (both tables built from the same kappa)")
+    rep.rule("R-BDF-RESCALE", "BDF: change_d(D, k, theta) maps the backward differences of a polynomial of degree <= k for spacing h to those for spacing theta*h (identity in theta, h and the coefficients; orders 1..5; exact evaluation with concrete control)")
+    import bdfx
+    bdfx.r_bdf_rescale(rep, f)
+    bdfx.r_bdf_core(rep, f)
     rep.explanation = ("Proof-level for the explicit methods: the Butcher tableau each stepper actually applies is extracted from the type-checked "
                        "program (buffers tracked flow-sensitively, constants read exactly as written) and every Runge-Kutta order condition up to the "
                        "advertised order is discharged in exact rational arithmetic (DOP853's 30-digit decimal literals: |residual| <= 1e-13). "
